@@ -263,7 +263,9 @@ func threadCPU() time.Duration {
 
 type refuseAllValidator struct{}
 
-func (refuseAllValidator) Validate(*specs.Spec) error { return fmt.Errorf("refused by the test validator") }
+func (refuseAllValidator) Validate(*specs.Spec) error {
+	return fmt.Errorf("refused by the test validator")
+}
 
 func checkC08(c *Ctx) {
 	c.Rule = "hostile byte strings as Spec file content (.json and .yaml; now and then behind a symbolic link, as a dangling link or as a file that vanishes at once): structure-aware mutations of valid documents (any value -> null / wrong type / empty / one letter / 100 KB string / 12000-deep nesting / 20000 elements / numeric extremes), YAML features (recursive and expanding aliases, merge keys, tags, multi-document, BOM, tabs, directives, complex and non-string keys), byte-level mutations (bit flip, delete, duplicate, splice, truncate, insert, replace) and random bytes, through ParseSpec, ReadSpec, Cache.Refresh+GetErrors, schema ValidateData/ValidateReader/Validate, and InjectDevices of every loadable mutated Spec into G-OCI specs; G-STR strings through cdi.ParseAnnotations/AnnotationKey/AnnotationValue/UpdateAnnotations and parser.*; plus a child process with an auto-refresh cache into whose directory hostile files are dropped: after each, a known-good file must get listed (the watcher goroutine lives); oracle: no panic, no fatal error/exit of the child, no call above 20 s CPU; distinct_nontrivial = distinct inputs (by hash) that got past the parser (reached validation or loaded)"
